@@ -1,12 +1,13 @@
-import Gp.Lemmas.PoolAsmN
-import Gp.Lemmas.PoolReasmN
+import Gp.Lemmas.PoolAsmU
+import Gp.Lemmas.PoolReasmU
 /-
   C12 — Assemblers sharing one stream pool are safe under every interleaving.
 
   The theorems quantify over EVERY thread-program assignment `progs : Tid → List Op` (any number of
-  assembler goroutines, any number of packets / FlushAll calls per goroutine, any keys) and EVERY
-  reachable state of the LTS of Gp/Model/PoolAsm.lean (tcpassembly) and Gp/Model/PoolReasm.lean
-  (reassembly), i.e. every interleaving at the granularity of the lock-delimited atomic segments.
+  assembler goroutines, any number of packets / FlushAll / FlushWithOptions (FlushOlderThan,
+  FlushCloseOlderThan) calls per goroutine, any keys, any timestamps) and EVERY reachable state of the
+  LTS of Gp/Model/PoolAsm.lean (tcpassembly) and Gp/Model/PoolReasm.lean (reassembly), i.e. every
+  interleaving at the granularity of the lock-delimited atomic segments.
   The models are tied to the real code by the controlled-scheduler correspondence run of engine `pool`.
 -/
 namespace Gp.C12
@@ -150,6 +151,55 @@ theorem pointer_key_partial (progs : Tid → List Op) (s : State) (h : (sys prog
   rw [hp, headKey_pkt] at this
   exact (Option.some.inj this).symm
 
+/-! ### Stream lifecycle under Flush* — UNCONDITIONAL (no `NoStale` hypothesis) -/
+
+/-- no_callback_after_complete: in every reachable state, for every Reassembled callback recorded in the
+    log (an Assemble delivery `deliv` or a FlushAll / FlushWithOptions delivery `fdeliv`) on a stream
+    `sid`, the part of the log BEFORE it contains no ReassemblyComplete of `sid` (`s.log` is newest
+    first: `l2` is what happened earlier).  Holds for every interleaving, stale recycling included:
+    the flusher's `if conn.closed {Unlock; continue}` and the assembler's retry loop see `closed`,
+    which is set together with the completion and cleared only by `reset`, which installs a new stream. -/
+theorem no_callback_after_complete (progs : Tid → List Op) (s : State) (h : (sys progs).Reachable s) :
+    NoCallbackAfterComplete s :=
+  logOK_split (invU_reachable progs s h).u8
+
+/-- completed_at_most_once: no stream — kept or dropped, reached through a stale pointer or not — is
+    ever completed twice. -/
+theorem completed_at_most_once (progs : Tid → List Op) (s : State) (h : (sys progs).Reachable s) (sid : SId) :
+    ncomp s.log sid ≤ 1 :=
+  (invU_reachable progs s h).u5 sid
+
+/-- ReassemblyComplete and `closed` go together: a stream that has been completed is attached to closed
+    connection objects only (so nothing can be delivered to it or queued for it any more). -/
+theorem completed_stream_closed (progs : Tid → List Op) (s : State) (h : (sys progs).Reachable s)
+    (c : CId) (sid : SId) (hc : c < s.nextC) (hst : (s.obj c).stream = some sid) (hn : ncomp s.log sid ≠ 0) :
+    (s.obj c).closed = true := by
+  cases hcl : (s.obj c).closed with
+  | true => rfl
+  | false => exact absurd ((invU_reachable progs s h).u4 c sid hc hst hcl) hn
+
+/-- The schedule of the seeded change C12-m2 on the model: goroutine 0 assembles SYN, an out-of-order
+    FIN segment (queued behind a gap, seen at time 1) and an in-order RST of key 0a; goroutine 1 calls
+    FlushWithOptions{T: 9}: it snapshots the pool BEFORE the RST closes the connection and locks the
+    connection AFTER.  The model (the code as it is) leaves the closed connection alone: one completion,
+    nothing after it — although the queued page is still linked (`lq = [1]`) and older than T. -/
+def m2Progs : Tid → List Op
+  | 0 => [.pkt ⟨0, false⟩ .syn, .pkt ⟨0, false⟩ (.late 1), .pkt ⟨0, false⟩ .rst]
+  | 1 => [.flushold 9 0]
+  | _ => []
+
+def m2Sched : List Tid := [0, 0, 0, 0, 0, 0, 1, 0, 0, 0, 0, 1, 1]
+
+example : ((sys m2Progs).run (sys m2Progs).init m2Sched).log =
+      [.complete 0 0, .deliv 0 0 2 ⟨0, false⟩ 1, .queue 0 0 1 ⟨0, false⟩, .deliv 0 0 0 ⟨0, false⟩ 1, .new 0 ⟨0, false⟩ 0]
+    ∧ (((sys m2Progs).run (sys m2Progs).init m2Sched).obj 0).lq = [1]
+    ∧ (((sys m2Progs).run (sys m2Progs).init m2Sched).thr 1).done = true := by decide
+
+/-- … and when the flusher comes first it releases the queued segment and completes the stream itself
+    (the RST then finds no connection): the lifecycle theorems are about non-trivial histories. -/
+example : ((sys m2Progs).run (sys m2Progs).init [0, 0, 0, 0, 0, 0, 1, 1, 1, 1, 0, 0]).log =
+      [.complete 0 1, .fdeliv 0 1 0 1, .queue 0 0 1 ⟨0, false⟩, .deliv 0 0 0 ⟨0, false⟩ 1, .new 0 ⟨0, false⟩ 0] := by decide
+
 end Asm
 /-! ## reassembly -/
 namespace Reasm
@@ -186,7 +236,7 @@ example : ((Sys.runStrict (sys true cxProgs) (sys true cxProgs).init [0, 1, 0, 1
 
 /-- Mutex invariant (fixed pool). -/
 theorem mutex_owner (progs : Tid → List Op) (s : State) (h : (sys true progs).Reachable s) (c : CId) (t : Tid) :
-    (s.obj c).mu = some t ↔ (∃ hb f, (s.thr t).pc = .cb c hb f) ∨ (s.thr t).pc = .rm c := by
+    (s.obj c).mu = some t ↔ (∃ hb f, (s.thr t).pc = .cb c hb f) ∨ (∃ cont, (s.thr t).pc = .rm c cont) := by
   rw [(invA_reachable progs s h).mu_iff c t]
   cases hpc : (s.thr t).pc <;> simp [PC.holds]
   all_goals exact fun e => e ▸ rfl
@@ -244,19 +294,30 @@ theorem right_stream_counterexample : ¬ right_stream_full := by
   have h1 := (h cx2Progs _ hr).1 1 1 0 ⟨0, false⟩ 1 (by decide)
   revert h1; decide
 
-/-- right_stream_partial (fixed pool): without stale recycling every delivered packet goes to the stream
-    created for (one direction of) its own connection. -/
-theorem right_stream_partial (progs : Tid → List Op) (s : State) (h : (sys true progs).ReachableR NoStale s) :
+/-- right_stream_partial (fixed pool): without stale recycling (and without the foreign remove of
+    FlushWithOptions, see below) every delivered packet goes to the stream created for (one direction of)
+    its own connection. -/
+theorem right_stream_partial (progs : Tid → List Op) (s : State) (h : (sys true progs).ReachableR Clean s) :
     RightStream s := by
   have hi := invN_reachableR progs s h
   exact ⟨fun sid t i k n hm => (hi.rs1 sid t i k n hm).2, fun sid t i k hm => (hi.rs2 sid t i k hm).2⟩
 
 /-- Non-vacuity: both directions of a connection race (the former FIXME schedule), attach to one entry,
     both deliver to the same stream, the two FINs close both halves, the stream is completed, the entry removed. -/
-example : ∃ s, (sys true (fun t => if t = 0 then [.pkt ⟨0, false⟩ .fin] else if t = 1 then [.pkt ⟨0, true⟩ .fin] else [])).ReachableR NoStale s
+example : ∃ s, (sys true (fun t => if t = 0 then [.pkt ⟨0, false⟩ .fin] else if t = 1 then [.pkt ⟨0, true⟩ .fin] else [])).ReachableR Clean s
     ∧ Ev.deliv 0 0 0 ⟨0, false⟩ 1 ∈ s.log ∧ Ev.deliv 0 1 0 ⟨0, true⟩ 1 ∈ s.log ∧ Ev.complete 0 1 ∈ s.log ∧ s.conns = [] := by
   refine ⟨Sys.runG (sys true _) noRecycleB (sys true _).init [0, 1, 0, 1, 0, 0, 1, 1, 1],
-    Sys.reachableR_runG (sys true _) noRecycleB noStale_of_noRecycleB .init _, ?_, ?_, ?_, ?_⟩
+    Sys.reachableR_runG (sys true _) noRecycleB clean_of_noRecycleB .init _, ?_, ?_, ?_, ?_⟩
+  all_goals decide
+
+/-- Non-vacuity with FlushWithOptions: an out-of-order segment is queued on each half, FlushWithOptions{T: 2, TC: 0}
+    releases only the older one (closing its half), FlushCloseOlderThan(9) releases the other, completes the
+    stream, removes the connection (nested) and its second, un-nested remove finds nothing. -/
+example : ∃ s, (sys true (fun t => if t = 0 then [.pkt ⟨0, false⟩ (.late 1), .pkt ⟨0, true⟩ (.late 3)] else if t = 1 then [.flushold 2 0, .flushold 9 9] else [])).ReachableR Clean s
+    ∧ s.log = [.complete 0 1, .fdeliv 0 1 1 1, .fdeliv 0 1 0 1, .queue 0 0 1 ⟨0, true⟩, .accept 0 0 1, .queue 0 0 0 ⟨0, false⟩, .accept 0 0 0, .new 0 ⟨0, false⟩ 0]
+    ∧ s.conns = [] ∧ s.free = [0] ∧ (s.thr 1).done = true := by
+  refine ⟨Sys.runG (sys true _) noRecycleB (sys true _).init [0, 0, 0, 0, 0, 1, 1, 1, 1, 1, 1, 1, 1, 1],
+    Sys.reachableR_runG (sys true _) noRecycleB clean_of_noRecycleB .init _, ?_, ?_, ?_, ?_⟩
   all_goals decide
 
 /-- kept_stream_completed_once at full strength.  FALSE (also after the fix). -/
@@ -285,21 +346,80 @@ theorem kept_stream_completed_once_counterexample : ¬ kept_stream_completed_onc
       (((sys true cx3Progs).run (sys true cx3Progs).init cx3Sched).skey 1) = none := by decide
   rw [h2] at h1; cases h1
 
-/-- kept_stream_completed_once_partial (fixed pool, no stale recycling). -/
+/-- The SECOND way reassembly loses a kept stream (not a stale POINTER use: no callback, no lock goes
+    through an old pointer): FlushWithOptions calls `remove(conn)` once more AFTER `conn.mu.Unlock()`, and
+    `remove` only tests that SOME entry is stored under `conn.key`.  Goroutine 1 (FlushCloseOlderThan)
+    closes and removes the idle connection of 0a and stops before that second remove; goroutine 0's next
+    packet re-creates the connection of 0a (here the freed object is recycled for it); the second remove
+    deletes the NEW connection's entry and puts its object on `free`: stream 1 is kept, never completed,
+    and no Flush* can reach it any more. -/
+def cx4Progs : Tid → List Op
+  | 0 => [.pkt ⟨0, false⟩ .syn, .pkt ⟨0, false⟩ (.late 1), .pkt ⟨0, false⟩ .fin]
+  | 1 => [.flushold 9 9]
+  | _ => []
+
+def cx4Sched : List Tid := [0, 0, 1, 0, 0, 1, 1, 0, 0, 0, 0, 0, 1, 0, 0, 0, 0, 0]
+
+theorem flush_remove_counterexample : ¬ kept_stream_completed_once_full := by
+  intro h
+  have hr := Sys.reachable_run (sys true cx4Progs) .init cx4Sched
+  obtain ⟨c, h1, _⟩ := (h cx4Progs _ hr 1 (by decide)).2 (by decide)
+  have h2 : ((sys true cx4Progs).run (sys true cx4Progs).init cx4Sched).conns.get
+      (((sys true cx4Progs).run (sys true cx4Progs).init cx4Sched).skey 1) = none := by decide
+  rw [h2] at h1; cases h1
+
+/-- kept_stream_completed_once_partial (fixed pool): along every execution with neither a stale recycling
+    nor a foreign remove (`Clean`: the precise negations of the two defects) every kept stream is completed
+    at most once and, until then, attached to an open connection stored under its key. -/
 theorem kept_stream_completed_once_partial (progs : Tid → List Op) (s : State)
-    (h : (sys true progs).ReachableR NoStale s) : KeptOnce s := by
+    (h : (sys true progs).ReachableR Clean s) : KeptOnce s := by
   have hi := invN_reachableR progs s h
   intro sid hk
   exact ⟨hi.b5 sid, hi.n7 sid hk⟩
 
 /-- Without stale recycling the half pointers a thread took before `conn.mu.Lock()` belong to its own key. -/
-theorem pointer_key_partial (progs : Tid → List Op) (s : State) (h : (sys true progs).ReachableR NoStale s)
+theorem pointer_key_partial (progs : Tid → List Op) (s : State) (h : (sys true progs).ReachableR Clean s)
     (t : Tid) (c : CId) (hb : Bool) (k : Key) (kind : Kind) (rest : List Op)
     (hpc : (s.thr t).pc = .lock c hb) (hsn : (s.thr t).snap = none) (hp : (s.thr t).prog = .pkt k kind :: rest) :
     halfKey (s.obj c).key hb = k := by
   have := (invN_reachableR progs s h).n4 t c hb hpc hsn
   rw [hp, headKey_pkt] at this
   exact (Option.some.inj this).symm
+
+/-! ### Stream lifecycle under Flush* — UNCONDITIONAL (fixed pool; no `Clean` hypothesis) -/
+
+/-- no_callback_after_complete: for every ReassembledSG callback recorded in the log (`deliv` from
+    AssembleWithContext, `fdeliv` from FlushAll / FlushWithOptions) on a stream `sid`, the earlier part
+    `l2` of the log contains no ReassemblyComplete of `sid`.  (NOT claimed for `Accept`: AssembleWithContext
+    calls `half.stream.Accept` before it tests `half.closed`, so a goroutine that looked a connection up
+    before it was completed still calls Accept on the completed stream; the model has that event.) -/
+theorem no_callback_after_complete (progs : Tid → List Op) (s : State) (h : (sys true progs).Reachable s) :
+    NoCallbackAfterComplete s :=
+  logOK_split (invU_reachable progs s h).u8
+
+/-- completed_at_most_once: no stream is ever completed twice — also along executions with stale
+    recycling, foreign removes and objects that sit on `free` twice. -/
+theorem completed_at_most_once (progs : Tid → List Op) (s : State) (h : (sys true progs).Reachable s) (sid : SId) :
+    ncomp s.log sid ≤ 1 :=
+  (invU_reachable progs s h).u5 sid
+
+/-- A completed stream is attached only to connection objects whose halves are both closed. -/
+theorem completed_stream_closed (progs : Tid → List Op) (s : State) (h : (sys true progs).Reachable s)
+    (c : CId) (sid : SId) (hc : c < s.nextC) (hst : (s.obj c).stream = some sid) (hn : ncomp s.log sid ≠ 0) :
+    (s.obj c).both = true := by
+  cases hcl : (s.obj c).both with
+  | true => rfl
+  | false => exact absurd ((invU_reachable progs s h).u4 c sid hc hst hcl) hn
+
+/-- The Accept-after-complete history mentioned above (goroutine 1 looks the connection up, goroutine 0's
+    FlushAll completes it, goroutine 1 locks it: Accept on the completed stream, packet dropped). -/
+def accProgs : Tid → List Op
+  | 0 => [.pkt ⟨0, false⟩ .syn, .flush]
+  | 1 => [.pkt ⟨0, false⟩ .syn]
+  | _ => []
+
+example : ((sys true accProgs).run (sys true accProgs).init [0, 0, 0, 0, 1, 0, 0, 0, 1]).log =
+    [.accept 0 1 0, .complete 0 0, .deliv 0 0 0 ⟨0, false⟩ 1, .accept 0 0 0, .new 0 ⟨0, false⟩ 0] := by decide
 
 end Reasm
 
